@@ -108,6 +108,61 @@ def run_base(ctx, rnd, tag, res, top, fin, weak, M0, mf, cases, nev):
                 ctx.distinct.add((tag, vname, frame, e))
 
 
+def known_reproducers(ctx):
+    """two fixed reproducers of OPEN findings (reported as KNOWN-FINDING while they still fail); both configurations are
+    excluded from the regular stream: every regular config declares the daughters of one topology in ONE order and, when
+    identical particles are declared, uses a chain set closed under their exchange"""
+    from tf_pwa.config_loader import ConfigLoader
+    # (1) two chains of the same topology that declare their daughters in opposite order, spin-1/2 final particle
+    mf = {"B": 0.938, "C": 0.494, "D": 0.139}; M0 = 2.286
+    p4 = ampkit.gen_events(M0, mf, 2, 7)
+
+    def cfg1(order):
+        pb = {"p_break": True}
+        dec = {"A": [[r, {"R1": "D", "R2": "D", "R3": "C"}[r], pb] for r in order], "R1": ["B", "C"], "R2": ["C", "B"], "R3": ["B", "D"]}
+        return {"data": {"dat_order": ["B", "C", "D"]}, "decay": dec,
+                "particle": {"$top": {"A": {"J": 0.5, "P": 1, "mass": M0}},
+                             "$finals": {"B": {"J": 0.5, "P": 1, "mass": mf["B"]}, "C": {"J": 0, "P": -1, "mass": mf["C"]}, "D": {"J": 0, "P": -1, "mass": mf["D"]}},
+                             "R1": {"J": 1.5, "P": -1, "mass": 1.52, "width": 0.05}, "R2": {"J": 0.5, "P": 1, "mass": 1.6, "width": 0.1},
+                             "R3": {"J": 1.5, "P": 1, "mass": 1.232, "width": 0.117}}}
+    pars = None; vals = []
+    for order in (["R1", "R2", "R3"], ["R2", "R1", "R3"]):
+        c = ConfigLoader(cfg1(order)); amp = c.get_amplitude()
+        if pars is None:
+            pars = ampkit.random_params(amp, random.Random(3))
+        amp.set_params(pars)
+        vals.append(np.array(amp(c.data.cal_angle(p4))))
+    dev = float(np.abs(vals[1] / vals[0] - 1).max())
+    ctx.count("known_reproducer:opposite_daughter_order:%s" % ("fails" if dev > 1e-6 else "passes"))
+    if dev > 1e-6:
+        ctx.fail("convention_invariance", "known_opposite_daughter_order", "density depends on chain order: rel. deviation %.3g" % dev,
+                 site="tf_pwa chains of one topology declaring their daughters in opposite order", fingerprint="opposite_daughter_order",
+                 failing_input={"config_order_1": cfg1(["R1", "R2", "R3"]), "config_order_2": cfg1(["R2", "R1", "R3"]), "params": pars,
+                                "events": {k: v.tolist() for k, v in p4.items()}, "densities": [vals[0].tolist(), vals[1].tolist()]})
+    # (2) identical spin-1 particles with a chain set that is not closed under their exchange
+    mf = {"B": 0.5, "C": 0.5, "D": 0.14}; M0 = 2.5
+    p4 = ampkit.gen_events(M0, mf, 2, 7)
+
+    def cfg2(order):
+        res = {"R_BD": {"pair": "R_BD", "J": 1, "P": 1, "mass": 1.2, "width": 0.1}, "R_BC": {"pair": "R_BC", "J": 2, "P": 1, "mass": 1.5, "width": 0.2}}
+        return ampkit.three_body_config(M0, mf, {k: res[k] for k in order}, top=(1, -1), fin={"B": (1, -1), "C": (1, -1), "D": (0, -1)},
+                                        data_opts={"identical_particles": [["B", "C"]]})
+    pars = None; vals = []
+    for order in (["R_BD", "R_BC"], ["R_BC", "R_BD"]):
+        c = ConfigLoader(cfg2(order)); amp = c.get_amplitude()
+        if pars is None:
+            pars = ampkit.random_params(amp, random.Random(3))
+        amp.set_params(pars)
+        vals.append(np.array(amp(c.data.cal_angle(p4))))
+    dev = float(np.abs(vals[1] / vals[0] - 1).max())
+    ctx.count("known_reproducer:identical_unclosed_chain_set:%s" % ("fails" if dev > 1e-6 else "passes"))
+    if dev > 1e-6:
+        ctx.fail("convention_invariance", "known_identical_unclosed", "density depends on chain order: rel. deviation %.3g" % dev,
+                 site="tf_pwa identical particles with a chain set not closed under the exchange", fingerprint="identical_unclosed_chain_set",
+                 failing_input={"config_order_1": cfg2(["R_BD", "R_BC"]), "config_order_2": cfg2(["R_BC", "R_BD"]), "params": pars,
+                                "events": {k: v.tolist() for k, v in p4.items()}, "densities": [vals[0].tolist(), vals[1].tolist()]})
+
+
 def search(ctx, fails):
     for f in fails:
         m = f.get("input") or {}
@@ -127,6 +182,7 @@ def run(ctx):
     for (tag, res, top, fin, weak, M0, mf) in base_configs(rnd):
         run_base(ctx, rnd, tag, res, top, fin, weak, M0, mf, cases, nev)
         ctx.sample({"config_tag": tag, "resonances": res, "top": top, "finals": fin})
+    known_reproducers(ctx)
     for c in cases[:: max(1, len(cases) // 4)]:
         ctx.sample({"case": c[0], "goal": c[1][:300], "layer": c[3].get("layer")}, cap=10)
     res_ = common.coq_cases(ctx, "c02", HEADER, [c[:3] for c in cases], per_file=10, case_timeout=60)
